@@ -80,6 +80,10 @@ pub use crate::{
 
 #[doc(no_inline)]
 pub use crate::config::Config;
+
+/// Hooks for external conformance checking (only with `--cfg watchexec_verif`).
+#[cfg(watchexec_verif)]
+pub use crate::watchexec::verif;
 #[doc(no_inline)]
 pub use watchexec_supervisor::{command, job};
 
